@@ -593,6 +593,19 @@ def run(ctx):
                    'termination device')
     c04.termination_devices(ctx, r10)
 
+    # ---- R12 join / requires verdicts (the part of the language semantics
+    # whose wrong answer is a hang or a task that runs too early) ---------------
+    r12 = ctx.rule('R12', 'join verdict tables, route search, execution '
+                   'cache and reverse requires give the prescribed answer '
+                   '(shared with C04.R6/R8/R10)', 'DT + GD')
+    from mstatic.rules import joinlogic
+    joinlogic.join_logical_state(ctx, r12)
+    joinlogic.induced_join_state(ctx, r12)
+    joinlogic.possible_route(ctx, r12)
+    c04.cache_rule(ctx, r12)
+    c04.reverse_rules(ctx, r12)
+    r12.floor(12)
+
     # ---- R11 explicit raises escaping engine entry points --------------------------------
     r11 = ctx.rule('R11', 'explicit raises of undeclared error types that '
                    'can escape an engine entry point equal the frozen '
